@@ -385,9 +385,9 @@ func (in *inliner) switchToIf(sw *ast.SwitchStmt) ast.Stmt {
 			}
 		}
 	}
-	if !need {
-		return nil
-	}
+	// Every tagless switch is converted (not only those whose cases call a helper): go/ssa evaluates a case
+	// expression `a || b` as a value (a phi) but an if condition as control flow, and the rules read control flow.
+	_ = need
 	// a default clause in the middle is still evaluated last: fine.  Bodies must not break/fallthrough.
 	for _, st := range sw.Body.List {
 		cc := st.(*ast.CaseClause)
